@@ -643,6 +643,38 @@ def check_state(acc, init, hist, t):
             gm = f"raised {type(ex).__name__}: {ex}"
         if gm != sums:
             bad("tip_to_tip_distances", tg_pairs(gm), tg_pairs(sums))
+        # the same two answers for a chosen set of end points: every subset of two or more tips (up to five tips), listed in
+        # the reverse of the tree's own tip order, as names and as nodes
+        if 3 <= len(tipnames) <= 5 and hasattr(t, "get_node_matching_name"):
+            done = False
+            for r in range(2, len(tipnames) + 1):
+                for sub in itertools.combinations(tipnames, r):
+                    ends = list(reversed(sub))
+                    want_sub = {k: v for k, v in sums.items() if k[0] in sub and k[1] in sub}
+                    for form in ("names", "nodes"):
+                        arg = ends if form == "names" else [t.get_node_matching_name(n) for n in ends]
+                        try:
+                            gd = {k: float(v) for k, v in t.get_distances(endpoints=list(arg)).items()}
+                        except Exception as ex:  # noqa: BLE001
+                            gd = f"raised {type(ex).__name__}: {ex}"
+                        if gd != want_sub:
+                            bad("get_distances(endpoints)", [ends, tg_pairs(gd)], tg_pairs(want_sub), cls="end points a subset of the tips, in another order")
+                            done = True
+                        try:
+                            mat, order = t.tip_to_tip_distances(endpoints=list(arg))
+                            onames = [n.name for n in order]
+                            gm = {(a, b): float(mat[i, j]) for i, a in enumerate(onames) for j, b in enumerate(onames) if i != j}
+                        except Exception as ex:  # noqa: BLE001
+                            gm = f"raised {type(ex).__name__}: {ex}"
+                        if gm != want_sub:
+                            bad("tip_to_tip_distances(endpoints)", [ends, tg_pairs(gm)], tg_pairs(want_sub), cls="end points a subset of the tips, in another order")
+                            done = True
+                        if done:
+                            break
+                    if done:
+                        break
+                if done:
+                    break
         try:
             mx = float(t.max_tip_tip_distance()[0])
         except Exception as ex:  # noqa: BLE001
